@@ -1411,7 +1411,8 @@ class DirStateWorkingTree(InventoryWorkingTree):
                 delete_block = False
                 for path in paths_to_unversion:
                     if block[0].startswith(path) and (
-                        len(block[0]) == len(path) or block[0][len(path)] == "/"
+                        len(block[0]) == len(path)
+                        or block[0][len(path) : len(path) + 1] == b"/"
                     ):
                         # this entire block should be deleted - its the block for a
                         # path to unversion; or the child of one
